@@ -174,7 +174,10 @@ theorem emitsAt_ctrlOpenOp (env : Env) (s : State) : EmitsAt (ctrlOpenOp env) [.
   emitsAt_subOp (by intro o ho hn; cases o <;> simp_all [ctrlErr, errOf]) s
 theorem emitsAt_ctrlCloseOp (env : Env) (s : State) : EmitsAt (ctrlCloseOp env) [.ctrlClose] s :=
   emitsAt_subOp (by intro o ho hn; cases o <;> simp_all [ctrlErr, errOf]) s
-theorem emitsAt_strmOpenOp (env : Env) (s : State) : EmitsAt (strmOpenOp env) [.strmOpen] s :=
+theorem emitsAt_strmOpenOp (env : Env) (s : State) : EmitsAt (strmOpenOp env) [.strmOpen] s := by
+  unfold strmOpenOp
+  rw [EmitsAt, getDev_bind, ← EmitsAt]
+  exact
   emitsAt_subOp (by intro o ho hn; simp [errOf]) s
 theorem emitsAt_strmCloseOp (env : Env) (s : State) : EmitsAt (strmCloseOp env) [.strmClose] s :=
   emitsAt_subOp (by intro o ho hn; simp [errOf]) s
@@ -183,10 +186,18 @@ theorem emitsAt_enableOp (env : Env) (s : State) : EmitsAt (enableOp env) [.enab
 theorem emitsAt_disableOp (env : Env) (s : State) : EmitsAt (disableOp env) [.disable] s :=
   emitsAt_subOp (by intro o ho hn; cases o <;> simp_all [ctrlErr, errOf]) s
 theorem emitsAt_loopStartOp (env : Env) (cap : Nat) (s : State) :
-    EmitsAt (loopStartOp env cap) [.loopStart] s :=
-  emitsAt_subOp (by intro o ho hn; simp [errOf]) s
-theorem emitsAt_loopStopOp (env : Env) (s : State) : EmitsAt (loopStopOp env) [.loopStop] s :=
-  emitsAt_subOp (by intro o ho hn; simp [errOf]) s
+    EmitsAt (loopStartOp env cap) [.loopStart] s := by
+  unfold loopStartOp
+  refine emitsAt_bind' (l1 := [.loopStart]) (l2 := []) rfl
+    (emitsAt_subOp (by intro o ho hn; simp [errOf]) s) (fun _ s1 => ?_)
+  rw [EmitsAt, getDev_bind, ← EmitsAt]
+  split
+  · exact emitsAt_throw (by simp [Logical]) [] s1
+  · exact emitsAt_modify _ s1
+theorem emitsAt_loopStopOp (env : Env) (s : State) : EmitsAt (loopStopOp env) [.loopStop] s := by
+  unfold loopStopOp
+  rw [EmitsAt, getDev_bind, ← EmitsAt]
+  exact emitsAt_subOp (by intro o ho hn; simp [errOf]) s
 theorem emitsAt_lockSetOp (env : Env) (v : Nat) (s : State) : EmitsAt (lockSetOp env v) [.lockSet v] s :=
   emitsAt_subOp (by intro o ho hn; simp [errOf, nodeErr]) s
 theorem emitsAt_acqStartOp (env : Env) (s : State) : EmitsAt (acqStartOp env) [.acqStart] s :=
@@ -487,6 +498,17 @@ theorem triple_snd {α : Type} {P Q : State → Prop} {m : M α}
   | err e => exact h2 e s1 hm
   | panic => exact h3 s1 hm
 
+/-- an invariant kept by the stream-handle open as a sub-operation (under whatever environment
+decides its outcome) is kept by `strmOpenOp` -/
+theorem triple_strmOpenOp {env : Env} {P : State → Prop}
+    (h : ∀ env', Triple P (subOp env' .strmOpen false (fun _ => Err.streamIo)
+      (fun d => { d with strmOpen := true })) (fun _ => P) P) :
+    Triple P (strmOpenOp env) (fun _ => P) P := by
+  unfold strmOpenOp
+  apply triple_getDev_bind
+  intro d
+  exact triple_conseq (h _) (fun _ h => h.1) (fun _ _ h => h) (fun _ h => h)
+
 /-- an invariant kept by both handle operations is kept by the pair, in either order -/
 theorem triple_handlePair {P : State → Prop} {b : Bool} {c s : M Unit}
     (hc : Triple P c (fun _ => P) P) (hs : Triple P s (fun _ => P) P) :
@@ -555,6 +577,74 @@ theorem frame_expectNode {kills : Bool} {p : Bool → Nat → Nat → Prop} {E :
   unfold expectNode
   exact triple_ite (fun _ => triple_pure (fun _ h => h)) (fun _ => triple_throw hE)
 
+/-- outcome of the `u3v` handle's stop: decided by the handle state, not by the fault plan -/
+theorem outcome_stopEnv_u3v {env : Env} {d : Dev} {s : State} (hh : env.handle = .u3v) :
+    outcome (stopEnv env d) false s = if (d.loopFlag && d.loops == 0) = true then .fault else .ok := by
+  simp [outcome, stopEnv, hh]
+
+theorem stopEnv_fake {env : Env} {d : Dev} (hh : env.handle = .fake) : stopEnv env d = env := by
+  simp [stopEnv, hh]
+
+/-- loop started but not yet counted: between the fallible part of `start_streaming_loop` and the
+spawn -/
+def pMid : Bool → Nat → Nat → Prop := fun f n l => f = false ∧ n = 0 ∧ l = 1
+
+theorem loopInv_loopStartOp (env : Env) (cap : Nat) :
+    Triple (LV env.stopFailKills pIdle) (loopStartOp env cap)
+      (fun _ => LoopInv env.stopFailKills) (LoopInv env.stopFailKills) := by
+  unfold loopStartOp
+  refine triple_bind (R := fun _ => LV env.stopFailKills pMid) ?_ (fun _ => ?_)
+  · apply triple_subOp
+    · rintro s ⟨h1, h2, h3⟩ _
+      simp [LV, pMid, okSt, liveLoops_append, loopDelta, h1, h2, h3]
+    · rintro s ⟨h1, h2, h3⟩ ho
+      apply loopInv_of_idle
+      refine ⟨h1, h2, ?_⟩
+      simp only [failSt, liveLoops_append, h3]
+      cases hout : outcome env false s <;> simp_all [loopDelta]
+  · apply triple_getDev_bind
+    intro d
+    refine triple_ite (fun hc => triple_throw ?_) (fun _ => triple_modify ?_)
+    · rintro s ⟨⟨h1, _, _⟩, rfl⟩
+      rw [h1] at hc
+      exact absurd hc.2 (by simp)
+    · rintro s ⟨⟨h1, h2, h3⟩, _⟩
+      apply loopInv_of_run
+      simp only [LV, pRun, h2, h3]
+      simp
+
+theorem loopInv_loopStopOp (env : Env) :
+    Triple (LV env.stopFailKills pRun) (loopStopOp env)
+      (fun _ => LV env.stopFailKills pIdle) (LoopInv env.stopFailKills) := by
+  unfold loopStopOp
+  apply triple_getDev_bind
+  intro d
+  apply triple_subOp
+  · rintro s ⟨⟨h1, h2, h3⟩, rfl⟩ _
+    cases hh : env.handle <;>
+      simp [LV, pIdle, okSt, liveLoops_append, loopDelta, loopStopUpd, hh, h1, h2, h3]
+  · rintro s ⟨⟨h1, h2, h3⟩, rfl⟩ ho
+    cases hh : env.handle with
+    | u3v =>
+      rw [outcome_stopEnv_u3v hh] at ho
+      simp [h1, h2] at ho
+    | fake =>
+      rw [stopEnv_fake hh] at ho ⊢
+      have hne := outcome_false_ne_notOpened env s
+      cases hout : outcome env false s with
+      | ok => exact absurd hout ho
+      | notOpened => exact absurd hout hne
+      | fault =>
+        cases hk : env.stopFailKills with
+        | true =>
+          apply loopInv_of_idle
+          rw [hk] at h3
+          simp [LV, pIdle, failSt, liveLoops_append, loopDelta, loopStopFail, hh, hk, h2, h3]
+        | false =>
+          apply loopInv_of_run
+          rw [hk] at h3
+          simp [LV, pRun, failSt, liveLoops_append, loopDelta, loopStopFail, hh, hk, h1, h2, h3]
+
 theorem loopInv_startStreaming (env : Env) (cap : Nat) :
     Triple (LoopInv env.stopFailKills) (startStreaming env cap)
       (fun _ => LoopInv env.stopFailKills) (LoopInv env.stopFailKills) := by
@@ -580,16 +670,7 @@ theorem loopInv_startStreaming (env : Env) (cap : Nat) :
   refine triple_bind (frame_expectNode _ hE) (fun _ => ?_)
   refine triple_bind (frame_subOp (by simp) (by simp) (by simp) (by simp) hE) (fun _ => ?_)
   -- loop start
-  apply triple_subOp
-  · rintro s ⟨h1, h2, h3⟩ _
-    apply loopInv_of_run
-    simp only [LV, pRun, okSt, liveLoops_append, loopDelta, h2, h3]
-    simp
-  · rintro s ⟨h1, h2, h3⟩ ho
-    apply loopInv_of_idle
-    refine ⟨h1, h2, ?_⟩
-    simp only [failSt, liveLoops_append, h3]
-    cases hout : outcome env false s <;> simp_all [loopDelta]
+  exact loopInv_loopStartOp env cap
 
 theorem loopInv_stopStreaming (env : Env) :
     Triple (LoopInv env.stopFailKills) (stopStreaming env)
@@ -607,26 +688,7 @@ theorem loopInv_stopStreaming (env : Env) :
   have hE : ∀ s, LV env.stopFailKills pIdle s → LoopInv env.stopFailKills s :=
     fun _ h => loopInv_of_idle h
   refine triple_bind (R := fun _ => LV env.stopFailKills pIdle) ?_ (fun _ => ?_)
-  · -- loop stop
-    apply triple_subOp
-    · rintro s ⟨h1, h2, h3⟩ _
-      simp only [LV, pIdle, okSt, liveLoops_append, loopDelta, h2, h3]
-      simp
-    · rintro s ⟨h1, h2, h3⟩ ho
-      have hne := outcome_false_ne_notOpened env s
-      cases hout : outcome env false s with
-      | ok => exact absurd hout ho
-      | notOpened => exact absurd hout hne
-      | fault =>
-        cases hk : env.stopFailKills with
-        | true =>
-          apply loopInv_of_idle
-          rw [hk] at h3
-          simp [LV, pIdle, failSt, liveLoops_append, loopDelta, h2, h3]
-        | false =>
-          apply loopInv_of_run
-          rw [hk] at h3
-          simp [LV, pRun, failSt, liveLoops_append, loopDelta, h1, h2, h3]
+  · exact loopInv_loopStopOp env
   refine triple_bind (frame_paramsCtxt hE) (fun x => ?_)
   refine triple_bind (frame_expectNode _ hE) (fun _ => ?_)
   refine triple_bind (frame_subOp (by simp) (by simp) (by simp) (by simp) hE) (fun _ => ?_)
@@ -654,7 +716,8 @@ theorem loopInv_call (env : Env) (op : Op) :
   cases op with
   | «open» =>
     exact triple_handlePair (loopInv_frame_subOp (by simp) (by simp) (by simp) (by simp))
-      (loopInv_frame_subOp (by simp) (by simp) (by simp) (by simp))
+      (triple_strmOpenOp (fun _ => frame_subOp (p := pInv) (by simp) (by simp) (by simp) (by simp)
+        (fun _ h => h)))
   | load =>
     refine triple_bind (R := fun _ => LoopInv env.stopFailKills) ?_ (fun x => ?_)
     · exact triple_bind (loopInv_frame_subOp (by simp) (by simp) (by simp) (by simp))
@@ -752,6 +815,48 @@ theorem full_of_ctxtOk {d : Dev} {x : Xml} (h : CtxtOk d) (hx : d.ctxt = some x)
   · rw [h1] at hx; cases hx
   · rw [h1] at hx; cases hx; rfl
 
+/-- device state after the loop was started -/
+def startUpd (cap : Nat) (d : Dev) : Dev :=
+  { d with loops := d.loops + 1, loopFlag := true, chan := some (cap, DEFAULT_BUFFER_CAP) }
+
+theorem okp_loopStartOp_at {env : Env} {cap : Nat} {d0 : Dev} {Φ : Prop} {GE : Dev → Prop}
+    (hprot : ∀ k o, isProtocol k = true → o ≠ Out.ok → ¬ H ⟨k, o⟩) (hΦ : Φ → d0.loopFlag = false) :
+    Triple (OkP H t0 (At d0 Φ)) (loopStartOp env cap) (fun _ => OkP H t0 (At (startUpd cap d0) Φ))
+      (OkP H t0 GE) := by
+  unfold loopStartOp
+  refine triple_bind (okp_subOp_at (by intro o; exact hprot _ o rfl)) (fun _ => ?_)
+  apply triple_getDev_bind
+  intro d
+  refine triple_ite (fun hc => triple_throw ?_) (fun _ => triple_modify ?_)
+  · rintro s ⟨h, rfl⟩
+    refine h.same rfl ?_
+    rintro ⟨hd, hφ⟩
+    have := hΦ hφ
+    rw [hd] at hc
+    exact absurd hc.2 (by simp [this])
+  · rintro s ⟨h, _⟩
+    refine h.same rfl ?_
+    rintro ⟨hd, hφ⟩
+    exact ⟨by simp only [hd]; rfl, hφ⟩
+
+theorem okp_loopStopOp_at {env : Env} {d0 : Dev} {Φ : Prop} {GE : Dev → Prop}
+    (hprot : ∀ k o, isProtocol k = true → o ≠ Out.ok → ¬ H ⟨k, o⟩) :
+    Triple (OkP H t0 (At d0 Φ)) (loopStopOp env) (fun _ => OkP H t0 (At (loopStopUpd env d0) Φ))
+      (OkP H t0 GE) := by
+  unfold loopStopOp
+  apply triple_getDev_bind
+  intro d
+  exact triple_conseq (P := OkP H t0 (At d0 Φ)) (okp_subOp_at (by intro o; exact hprot _ o rfl))
+    (fun _ h => h.1) (fun _ _ h => h) (fun _ h => h)
+
+@[simp] theorem loopStopUpd_ctxt (env : Env) (d : Dev) : (loopStopUpd env d).ctxt = d.ctxt := by
+  unfold loopStopUpd; cases env.handle <;> simp only <;> split <;> rfl
+
+/-- stopping the one running loop, for either handle -/
+theorem loopStopUpd_of_run {env : Env} {d : Dev} (hf : d.loopFlag = true) (hl : d.loops = 1) :
+    loopStopUpd env d = { d with loops := 0, loopFlag := false, chan := none } := by
+  unfold loopStopUpd; cases env.handle <;> simp [hf, hl]
+
 theorem good_startStreaming (env : Env) (cap : Nat)
     (hprot : ∀ k o, isProtocol k = true → o ≠ Out.ok → ¬ H ⟨k, o⟩)
     {GE : Dev → Prop} (hGE : ∀ d, Good d → GE d) :
@@ -782,7 +887,7 @@ theorem good_startStreaming (env : Env) (cap : Nat)
     simp only at hx
     rw [full_of_ctxtOk hg.2 hx]; rfl
   refine triple_bind (okp_subOp_at (by intro o; exact hprot _ o rfl)) (fun _ => ?_)
-  refine triple_conseq (okp_subOp_at (by intro o; exact hprot _ o rfl)) (fun _ h => h) ?_ (fun _ h => h)
+  refine triple_conseq (okp_loopStartOp_at hprot (by intro _; exact hflag)) (fun _ h => h) ?_ (fun _ h => h)
   intro _ s h
   refine h.same rfl ?_
   rintro ⟨hd, ⟨⟨hft, hen, hlk, hac, hch⟩, hc1, hc2⟩, hx⟩
@@ -791,7 +896,7 @@ theorem good_startStreaming (env : Env) (cap : Nat)
   simp only [FlagTracksLoop, hflag, Bool.false_eq_true, if_false] at hft
   subst hfull
   simp only at hx
-  refine ⟨⟨?_, ?_, ?_, ?_, ?_⟩, ?_, ?_⟩ <;> simp [FlagTracksLoop, hft, hx]
+  refine ⟨⟨?_, ?_, ?_, ?_, ?_⟩, ?_, ?_⟩ <;> simp [startUpd, FlagTracksLoop, hft, hx]
 
 /-- `stop_streaming` from a good state: on the all-ok path it cannot fail, and it ends with no
 loop running. -/
@@ -809,21 +914,21 @@ theorem good_stopStreaming (env : Env)
   simp only [Bool.not_eq_true, Bool.not_eq_false'] at hflag
   refine triple_conseq (P := OkP H t0 (At d (Good d))) ?_
     (by rintro s ⟨h, rfl⟩; exact h.same rfl (fun hB => ⟨rfl, hB⟩)) (fun _ _ h => h) (fun _ h => h)
-  refine triple_bind (okp_subOp_at (by intro o; exact hprot _ o rfl)) (fun _ => ?_)
+  refine triple_bind (okp_loopStopOp_at hprot) (fun _ => ?_)
   refine triple_bind (okp_paramsCtxt_at ?_) (fun x => ?_)
   · intro hg hc
-    simp only at hc
+    simp only [loopStopUpd_ctxt] at hc
     have := hg.2.2 hflag
     rw [this] at hc
     cases hc
   refine triple_bind (okp_expectNode_at ?_) (fun _ => ?_)
   · rintro ⟨hg, hx⟩
-    simp only at hx
+    simp only [loopStopUpd_ctxt] at hx
     rw [full_of_ctxtOk hg.2 hx]; rfl
   refine triple_bind (okp_subOp_at (by intro o; exact hprot _ o rfl)) (fun _ => ?_)
   refine triple_bind (okp_expectNode_at ?_) (fun _ => ?_)
   · rintro ⟨hg, hx⟩
-    simp only at hx
+    simp only [loopStopUpd_ctxt] at hx
     rw [full_of_ctxtOk hg.2 hx]; rfl
   refine triple_bind (okp_subOp_at (by intro o; exact hprot _ o rfl)) (fun _ => ?_)
   refine triple_conseq (okp_subOp_at (by intro o; exact hprot _ o rfl)) (fun _ h => h) ?_ (fun _ h => h)
@@ -832,10 +937,11 @@ theorem good_stopStreaming (env : Env)
   rintro ⟨hd, ⟨⟨hft, hen, hlk, hac, hch⟩, hc1, hc2⟩, hx⟩
   rw [hd]
   simp only [FlagTracksLoop, hflag, if_true] at hft
+  simp only [loopStopUpd_ctxt] at hx
   have hfull := full_of_ctxtOk ⟨hc1, hc2⟩ hx
   subst hfull
-  simp only at hx
-  refine ⟨⟨⟨?_, ?_, ?_, ?_, ?_⟩, ?_, ?_⟩, ?_⟩ <;> simp [FlagTracksLoop, hft, hx]
+  rw [loopStopUpd_of_run hflag hft]
+  refine ⟨⟨⟨?_, ?_, ?_, ?_, ?_⟩, ?_, ?_⟩, ?_⟩ <;> simp [FlagTracksLoop, hx]
 
 theorem good_frame_subOp {env : Env} {k : Sub} {no : Bool} {onFail : Out → Err}
     {upd fu : Dev → Dev} {B : Dev → Prop} (h : ∀ d, B d → B (upd d)) (hf : ∀ d, B d → B (fu d)) :
@@ -899,7 +1005,7 @@ theorem good_closeCam (env : Env)
 theorem good_openCam (env : Env) :
     Triple (OkP H t0 Good) (openCam env) (fun _ => OkP H t0 Good) (OkP H t0 Good) :=
   triple_handlePair (good_frame_subOp (fun _ h => h) (fun _ h => h))
-    (good_frame_subOp (fun _ h => h) (fun _ h => h))
+    (triple_strmOpenOp (fun _ => good_frame_subOp (fun _ h => h) (fun _ h => h)))
 
 theorem good_loadContext (env : Env) (hx : env.xml = Xml.full) :
     Triple (OkP H t0 Good) (loadContext env) (fun _ => OkP H t0 Good) (OkP H t0 Good) := by
@@ -995,7 +1101,9 @@ def NoLoopChange (d d' : Dev) : Prop :=
 changed (the loop stop itself failed and the loop survived), or the loop is gone -/
 def LoopGoneOrSame (d d' : Dev) : Prop :=
   d' = d ∨ (d'.loops = d.loops - 1 ∧ d'.chan = none ∧ d'.ctxt = d.ctxt ∧
-    (d'.loopFlag = false ∨ d'.loopFlag = decide (0 < d.loops - 1)))
+    (d'.loopFlag = false ∨ d'.loopFlag = decide (0 < d.loops - 1))) ∨
+  -- `u3v` handle whose loop thread had died: the stop took the sender, the send failed
+  (d'.loops = d.loops ∧ d'.chan = none ∧ d'.ctxt = d.ctxt ∧ d'.loopFlag = false)
 
 /-- device state after a successful `start_streaming` -/
 def startedDev (d : Dev) (cap : Nat) : Dev :=
@@ -1004,10 +1112,31 @@ def startedDev (d : Dev) (cap : Nat) : Dev :=
            cache := { d.cache with lock := true, start := true } }
 
 /-- device state after a successful `stop_streaming` of a running loop -/
-def stoppedDev (d : Dev) : Dev :=
-  { d with enabled := false, lock := 0, acquiring := false,
-           loopFlag := decide (0 < d.loops - 1), loops := d.loops - 1, chan := none,
-           cache := { d.cache with lock := true, stop := true } }
+def stoppedDev (env : Env) (d : Dev) : Dev :=
+  let d1 := loopStopUpd env d
+  { d1 with enabled := false, lock := 0, acquiring := false,
+            cache := { d1.cache with lock := true, stop := true } }
+
+theorem ex_loopStartOp {env : Env} {cap : Nat} {d0 : Dev} {E : State → Prop}
+    (hE : ∀ s, s.dev = d0 → E s) :
+    Triple (fun s => s.dev = d0) (loopStartOp env cap) (fun _ s => s.dev = startUpd cap d0) E := by
+  unfold loopStartOp
+  refine triple_bind (ex_subOp hE) (fun _ => ?_)
+  apply triple_getDev_bind
+  intro d
+  refine triple_ite (fun _ => triple_throw (fun s h => hE s h.1)) (fun _ => triple_modify ?_)
+  rintro s ⟨h, _⟩
+  simp only [h]
+  rfl
+
+theorem ex_loopStopOp {env : Env} {d0 : Dev} {E : State → Prop}
+    (hE : ∀ s, s.dev = loopStopFail env d0 → E s) :
+    Triple (fun s => s.dev = d0) (loopStopOp env) (fun _ s => s.dev = loopStopUpd env d0) E := by
+  unfold loopStopOp
+  apply triple_getDev_bind
+  intro d
+  exact triple_conseq (P := fun s => s.dev = d0) (ex_subOp hE) (fun _ h => h.1) (fun _ _ h => h)
+    (fun _ h => h)
 
 theorem triple_false {α : Type} {P : State → Prop} {m : M α} {Q : α → State → Prop}
     {E : State → Prop} (h : ∀ s, ¬ P s) : Triple P m Q E :=
@@ -1035,7 +1164,7 @@ theorem exact_startStreaming (env : Env) (cap : Nat) (d : Dev) :
   refine triple_bind (ex_subOp (by intro s h; rw [h]; simp [NoLoopChange])) (fun _ => ?_)
   refine triple_bind (ex_expectNode _ (by intro s h; rw [h]; simp [NoLoopChange])) (fun _ => ?_)
   refine triple_bind (ex_subOp (by intro s h; rw [h]; simp [NoLoopChange])) (fun _ => ?_)
-  refine triple_conseq (ex_subOp (by intro s h; rw [h]; simp [NoLoopChange])) (fun _ h => h) ?_
+  refine triple_conseq (ex_loopStartOp (by intro s h; rw [h]; simp [NoLoopChange])) (fun _ h => h) ?_
     (fun _ h => h)
   intro _ s h
   simp only [Bool.not_eq_true] at hflag
@@ -1045,7 +1174,7 @@ theorem exact_startStreaming (env : Env) (cap : Nat) (d : Dev) :
 
 theorem exact_stopStreaming (env : Env) (d : Dev) :
     Triple (fun s => s.dev = d) (stopStreaming env)
-      (fun _ s => s.dev = if d.loopFlag then stoppedDev d else d)
+      (fun _ s => s.dev = if d.loopFlag then stoppedDev env d else d)
       (fun s => LoopGoneOrSame d s.dev) := by
   unfold stopStreaming
   apply triple_getDev_bind
@@ -1059,17 +1188,29 @@ theorem exact_stopStreaming (env : Env) (d : Dev) :
     simp [hflag, h]
   simp only [Bool.not_eq_true, Bool.not_eq_false'] at hflag
   refine triple_conseq (P := fun s => s.dev = d') ?_ (fun _ h => h.2) (fun _ _ h => h) (fun _ h => h)
-  have hgone : ∀ (d1 : Dev) (s : State), s.dev = d1 → d1.loops = d'.loops - 1 → d1.chan = none →
-      d1.ctxt = d'.ctxt → d1.loopFlag = decide (0 < d'.loops - 1) → LoopGoneOrSame d' s.dev := by
+  have hD1 : (loopStopUpd env d').loops = d'.loops - 1 ∧ (loopStopUpd env d').chan = none ∧
+      (loopStopUpd env d').ctxt = d'.ctxt ∧
+      ((loopStopUpd env d').loopFlag = false ∨
+        (loopStopUpd env d').loopFlag = decide (0 < d'.loops - 1)) := by
+    unfold loopStopUpd
+    cases env.handle <;> simp [hflag]
+  have hgone : ∀ (d1 : Dev) (s : State), s.dev = d1 → d1.loops = (loopStopUpd env d').loops →
+      d1.chan = (loopStopUpd env d').chan → d1.ctxt = (loopStopUpd env d').ctxt →
+      d1.loopFlag = (loopStopUpd env d').loopFlag → LoopGoneOrSame d' s.dev := by
     intro d1 s h h1 h2 h3 h4
     rw [h]
-    exact Or.inr ⟨h1, h2, h3, Or.inr h4⟩
-  refine triple_bind (ex_subOp ?_) (fun _ => ?_)
+    refine Or.inr (Or.inl ⟨h1.trans hD1.1, h2.trans hD1.2.1, h3.trans hD1.2.2.1, ?_⟩)
+    rw [h4]
+    exact hD1.2.2.2
+  refine triple_bind (ex_loopStopOp ?_) (fun _ => ?_)
   · intro s h
     rw [h]
-    cases env.stopFailKills
-    · exact Or.inl (by simp)
-    · exact Or.inr (by simp)
+    unfold loopStopFail
+    cases env.handle
+    · cases env.stopFailKills
+      · exact Or.inl (by simp)
+      · exact Or.inr (Or.inl (by simp))
+    · exact Or.inr (Or.inr (by simp))
   refine triple_bind (ex_paramsCtxt (by intro s h; exact hgone _ s h rfl rfl rfl rfl)) (fun x => ?_)
   refine triple_bind (ex_expectNode _ (by intro s h; exact hgone _ s h rfl rfl rfl rfl)) (fun _ => ?_)
   refine triple_bind (ex_subOp (by intro s h; exact hgone _ s h rfl rfl rfl rfl)) (fun _ => ?_)
@@ -1118,6 +1259,34 @@ theorem vis_expectNode (b : Bool) : Triple (VisInv v0 t0) (expectNode b) (fun _ 
   unfold expectNode
   exact triple_ite (fun _ => triple_pure (fun _ h => h)) (fun _ => triple_throw (fun _ h => h))
 
+theorem loopStopUpd_visible (env : Env) (d : Dev) : (loopStopUpd env d).visible = d.visible := by
+  unfold loopStopUpd
+  cases env.handle <;> simp only [Dev.visible] <;> split <;> rfl
+
+theorem loopStopFail_visible (env : Env) (d : Dev) : (loopStopFail env d).visible = d.visible := by
+  unfold loopStopFail
+  cases env.handle <;> simp only [Dev.visible] <;> split <;> rfl
+
+theorem vis_loopStopOp (env : Env) :
+    Triple (VisInv v0 t0) (loopStopOp env) (fun _ => (VisInv v0 t0)) (VisInv v0 t0) := by
+  unfold loopStopOp
+  apply triple_getDev_bind
+  intro d
+  exact triple_conseq (P := VisInv v0 t0)
+    (vis_subOp (by intro d; simp [loopStopUpd_visible, applyEffect]) (loopStopFail_visible env))
+    (fun _ h => h.1) (fun _ _ h => h) (fun _ h => h)
+
+theorem vis_loopStartOp (env : Env) (cap : Nat) :
+    Triple (VisInv v0 t0) (loopStartOp env cap) (fun _ => (VisInv v0 t0)) (VisInv v0 t0) := by
+  unfold loopStartOp
+  refine triple_bind (vis_subOp (by intro d; simp [Dev.visible, applyEffect]) (by intro d; simp [Dev.visible]))
+    (fun _ => ?_)
+  apply triple_getDev_bind
+  intro d
+  refine triple_ite (fun _ => triple_throw (fun _ h => h.1)) (fun _ => triple_modify ?_)
+  rintro s ⟨⟨seg, ht, hv⟩, _⟩
+  exact ⟨seg, ht, hv⟩
+
 theorem vis_stopStreaming (env : Env) :
     Triple (VisInv v0 t0) (stopStreaming env) (fun _ => (VisInv v0 t0)) (VisInv v0 t0) := by
   unfold stopStreaming
@@ -1125,8 +1294,7 @@ theorem vis_stopStreaming (env : Env) :
   intro d
   refine triple_ite (fun _ => triple_pure (fun _ h => h.1)) (fun _ => ?_)
   refine triple_conseq (P := (VisInv v0 t0)) ?_ (fun _ h => h.1) (fun _ _ h => h) (fun _ h => h)
-  refine triple_bind (vis_subOp (by intro d; simp [Dev.visible, applyEffect]) ?_) (fun _ => ?_)
-  · intro d; split <;> simp [Dev.visible]
+  refine triple_bind (vis_loopStopOp env) (fun _ => ?_)
   refine triple_bind vis_paramsCtxt (fun x => ?_)
   refine triple_bind (vis_expectNode _) (fun _ => ?_)
   refine triple_bind (vis_subOp (by intro d; simp [Dev.visible, applyEffect]) (by intro d; simp [Dev.visible])) (fun _ => ?_)
@@ -1138,7 +1306,8 @@ theorem vis_call (env : Env) (op : Op) : Triple (VisInv v0 t0) (call env op) (fu
   cases op with
   | «open» =>
     exact triple_handlePair (vis_subOp (by intro d; simp [Dev.visible, applyEffect]) (by intro d; simp [Dev.visible]))
-      (vis_subOp (by intro d; simp [Dev.visible, applyEffect]) (by intro d; simp [Dev.visible]))
+      (triple_strmOpenOp (fun _ =>
+        vis_subOp (by intro d; simp [Dev.visible, applyEffect]) (by intro d; simp [Dev.visible])))
   | load =>
     refine triple_bind (R := fun _ => (VisInv v0 t0)) ?_ (fun x => ?_)
     · exact triple_bind (vis_subOp (by intro d; simp [Dev.visible, applyEffect]) (by intro d; simp [Dev.visible]))
@@ -1159,7 +1328,7 @@ theorem vis_call (env : Env) (op : Op) : Triple (VisInv v0 t0) (call env op) (fu
     refine triple_bind (vis_subOp (by intro d; simp [Dev.visible, applyEffect]) (by intro d; simp [Dev.visible])) (fun _ => ?_)
     refine triple_bind (vis_expectNode _) (fun _ => ?_)
     refine triple_bind (vis_subOp (by intro d; simp [Dev.visible, applyEffect]) (by intro d; simp [Dev.visible])) (fun _ => ?_)
-    exact vis_subOp (by intro d; simp [Dev.visible, applyEffect]) (by simp)
+    exact vis_loopStartOp env cap
   | stop => exact vis_stopStreaming env
   | close =>
     refine triple_bind (vis_stopStreaming env) (fun _ => ?_)
@@ -1249,6 +1418,25 @@ theorem ord_free_subOp {env : Env} {k : Sub} {no : Bool} {onFail : Out → Err} 
   triple_conseq (ord_subOp (c := []) ⟨[], by rw [hk]; rfl⟩) (fun _ h => h) (fun _ => ordP_weaken)
     (fun _ h => h)
 
+theorem ord_loopStopOp {env : Env} {c : List Effect} :
+    Triple (OrdP c) (loopStopOp env) (fun _ => OrdP (c ++ [⟨.loopStop, .ok⟩])) (OrdP []) := by
+  unfold loopStopOp
+  apply triple_getDev_bind
+  intro d
+  exact triple_conseq (P := OrdP c) (ord_subOp ⟨c, by simp [requiredBefore]⟩) (fun _ h => h.1)
+    (fun _ _ h => h) (fun _ h => h)
+
+theorem ord_loopStartOp {env : Env} {cap : Nat} {c : List Effect}
+    (hreq : ∃ c0, c = c0 ++ requiredBefore .loopStart) :
+    Triple (OrdP c) (loopStartOp env cap) (fun _ => OrdP (c ++ [⟨.loopStart, .ok⟩])) (OrdP []) := by
+  unfold loopStartOp
+  refine triple_bind (ord_subOp hreq) (fun _ => ?_)
+  apply triple_getDev_bind
+  intro d
+  refine triple_ite (fun _ => triple_throw (fun s h => ordP_weaken s h.1)) (fun _ => triple_modify ?_)
+  rintro s ⟨h, _⟩
+  exact h
+
 theorem ord_stopStreaming (env : Env) :
     Triple (OrdP []) (stopStreaming env) (fun _ => OrdP []) (OrdP []) := by
   unfold stopStreaming
@@ -1256,7 +1444,7 @@ theorem ord_stopStreaming (env : Env) :
   intro d
   refine triple_ite (fun _ => triple_pure (fun _ h => h.1)) (fun _ => ?_)
   refine triple_conseq (P := OrdP []) ?_ (fun _ h => h.1) (fun _ _ h => h) (fun _ h => h)
-  refine triple_bind (ord_subOp ⟨[], rfl⟩) (fun _ => ?_)
+  refine triple_bind ord_loopStopOp (fun _ => ?_)
   refine triple_bind ord_paramsCtxt (fun x => ?_)
   refine triple_bind (ord_expectNode _) (fun _ => ?_)
   refine triple_bind (ord_subOp ⟨[], rfl⟩) (fun _ => ?_)
@@ -1267,7 +1455,7 @@ theorem ord_stopStreaming (env : Env) :
 theorem ord_call (env : Env) (op : Op) :
     Triple (OrdP []) (call env op) (fun _ => OrdP []) (OrdP []) := by
   cases op with
-  | «open» => exact triple_handlePair (ord_free_subOp rfl) (ord_free_subOp rfl)
+  | «open» => exact triple_handlePair (ord_free_subOp rfl) (triple_strmOpenOp (fun _ => ord_free_subOp rfl))
   | load =>
     refine triple_bind (R := fun _ => OrdP []) ?_ (fun x => ?_)
     · exact triple_bind (ord_free_subOp rfl) (fun _ => triple_pure (fun _ h => h))
@@ -1287,7 +1475,7 @@ theorem ord_call (env : Env) (op : Op) :
     refine triple_bind (ord_subOp ⟨[], rfl⟩) (fun _ => ?_)
     refine triple_bind (ord_expectNode _) (fun _ => ?_)
     refine triple_bind (ord_subOp ⟨[], rfl⟩) (fun _ => ?_)
-    exact triple_conseq (ord_subOp ⟨[], rfl⟩) (fun _ h => h) (fun _ => ordP_weaken) (fun _ h => h)
+    exact triple_conseq (ord_loopStartOp ⟨[], rfl⟩) (fun _ h => h) (fun _ => ordP_weaken) (fun _ h => h)
   | stop => exact ord_stopStreaming env
   | close =>
     refine triple_bind (ord_stopStreaming env) (fun _ => ?_)
@@ -1312,5 +1500,374 @@ theorem ord_init : OrdP [] State.init := by
   refine ⟨?_, ends_nil _⟩
   intro pre e post h
   simp [State.init] at h
+
+/-! ### Growth round: cache after close, nothing after a failed step -/
+
+theorem triple_trivial {α : Type} {P : State → Prop} {m : M α} :
+    Triple P m (fun _ _ => True) (fun _ => True) :=
+  fun _ _ => ⟨fun _ _ _ => trivial, fun _ _ _ => trivial, fun _ _ => trivial⟩
+
+/-- whatever `close` did before (incl. the stop sequence, whose writes populate the cache), its
+last action on success empties the cache -/
+theorem cache_closeCam (env : Env) :
+    Triple (fun _ => True) (closeCam env) (fun _ s => s.dev.cache = Cache.empty) (fun _ => True) := by
+  unfold closeCam
+  refine triple_bind (R := fun _ _ => True) triple_trivial (fun _ => ?_)
+  refine triple_bind (R := fun _ _ => True) triple_trivial (fun _ => ?_)
+  exact triple_modify (fun _ _ => rfl)
+
+/-- the last element of a list written in two ways -/
+theorem last_eq_of_append_eq {α : Type} {pre p l : List α} {e c : α}
+    (h : pre ++ [e] = p ++ (l ++ [c])) : e = c := by
+  have := congrArg List.reverse h
+  simp only [List.reverse_append, List.reverse_cons, List.reverse_nil, List.nil_append,
+    List.cons_append, List.cons.injEq] at this
+  exact this.1
+
+/-- every non-empty `requiredBefore` list ends with a successful effect -/
+theorem requiredBefore_last_ok (k : Sub) (h : requiredBefore k ≠ []) :
+    ∃ l c, requiredBefore k = l ++ [c] ∧ c.out = .ok := by
+  unfold requiredBefore at *
+  split at h <;> first
+    | exact absurd rfl h
+    | exact ⟨_, _, (List.dropLast_concat_getLast (by simp)).symm, by simp⟩
+
+/-! ### Growth round: the `u3v::StreamHandle` instance with loop deaths -/
+
+/-- what holds of the `u3v` handle in every history, loop deaths included: at most one loop
+thread is alive, and a live loop is always reported by the flag -/
+def U3vInv (d : Dev) : Prop := d.loops ≤ 1 ∧ (d.loops = 1 → d.loopFlag = true)
+
+/-- assertions on (flag, live loops) only -/
+def DV (p : Bool → Nat → Prop) (s : State) : Prop := p s.dev.loopFlag s.dev.loops
+
+def qInv : Bool → Nat → Prop := fun f n => n ≤ 1 ∧ (n = 1 → f = true)
+def qIdle : Bool → Nat → Prop := fun f n => f = false ∧ n = 0
+def qHeld : Bool → Nat → Prop := fun f n => f = true ∧ n ≤ 1
+
+theorem qInv_of_idle {s : State} (h : DV qIdle s) : DV qInv s := by
+  obtain ⟨h1, h2⟩ := h
+  simp [DV, qInv, h1, h2]
+
+theorem dv_subOp {env : Env} {k : Sub} {no : Bool} {onFail : Out → Err} {upd fu : Dev → Dev}
+    {p : Bool → Nat → Prop} {E : State → Prop}
+    (hu : ∀ d, (upd d).loopFlag = d.loopFlag ∧ (upd d).loops = d.loops)
+    (hf : ∀ d, (fu d).loopFlag = d.loopFlag ∧ (fu d).loops = d.loops)
+    (hE : ∀ s, DV p s → E s) :
+    Triple (DV p) (subOp env k no onFail upd fu) (fun _ => DV p) E := by
+  apply triple_subOp
+  · intro s hP _
+    simp only [DV, okSt, (hu s.dev).1, (hu s.dev).2]
+    exact hP
+  · intro s hP _
+    apply hE
+    simp only [DV, failSt, (hf s.dev).1, (hf s.dev).2]
+    exact hP
+
+theorem dv_paramsCtxt {p : Bool → Nat → Prop} {E : State → Prop} (hE : ∀ s, DV p s → E s) :
+    Triple (DV p) paramsCtxt (fun _ => DV p) E :=
+  triple_paramsCtxt (fun _ _ h _ => h) (fun s h _ => hE s h)
+
+theorem dv_expectNode {p : Bool → Nat → Prop} {E : State → Prop} (b : Bool)
+    (hE : ∀ s, DV p s → E s) : Triple (DV p) (expectNode b) (fun _ => DV p) E := by
+  unfold expectNode
+  exact triple_ite (fun _ => triple_pure (fun _ h => h)) (fun _ => triple_throw hE)
+
+theorem u3v_startStreaming (env : Env) (cap : Nat) :
+    Triple (DV qInv) (startStreaming env cap) (fun _ => DV qInv) (DV qInv) := by
+  unfold startStreaming
+  apply triple_getDev_bind
+  intro d
+  refine triple_ite (fun _ => triple_throw (fun _ h => h.1)) (fun hflag => ?_)
+  refine triple_ite (fun _ => triple_throw (fun _ h => h.1)) (fun _ => ?_)
+  refine triple_ite (fun _ => triple_panic (fun _ h => h.1)) (fun _ => ?_)
+  have hpre : ∀ s, (DV qInv s ∧ s.dev = d) → DV qIdle s := by
+    rintro s ⟨⟨h1, h2⟩, rfl⟩
+    simp only [Bool.not_eq_true] at hflag
+    refine ⟨hflag, ?_⟩
+    rcases Nat.lt_or_ge s.dev.loops 1 with h | h
+    · omega
+    · have : s.dev.loops = 1 := by omega
+      rw [h2 this] at hflag
+      cases hflag
+  refine triple_conseq (P := DV qIdle) ?_ hpre (fun _ _ h => h) (fun _ h => h)
+  have hE : ∀ s, DV qIdle s → DV qInv s := fun _ h => qInv_of_idle h
+  refine triple_bind (dv_subOp (by simp) (by simp) hE) (fun _ => ?_)
+  refine triple_bind (dv_paramsCtxt hE) (fun x => ?_)
+  refine triple_bind (dv_expectNode _ hE) (fun _ => ?_)
+  refine triple_bind (dv_subOp (by simp) (by simp) hE) (fun _ => ?_)
+  refine triple_bind (dv_expectNode _ hE) (fun _ => ?_)
+  refine triple_bind (dv_subOp (by simp) (by simp) hE) (fun _ => ?_)
+  unfold loopStartOp
+  refine triple_bind (dv_subOp (by simp) (by simp) hE) (fun _ => ?_)
+  apply triple_getDev_bind
+  intro d1
+  refine triple_ite (fun _ => triple_throw (fun s h => hE s h.1)) (fun _ => triple_modify ?_)
+  rintro s ⟨⟨_, h2⟩, _⟩
+  simp [DV, qInv, h2]
+
+theorem u3v_stopStreaming (env : Env) (hh : env.handle = .u3v) :
+    Triple (DV qInv) (stopStreaming env) (fun _ => DV qInv) (DV qInv) := by
+  unfold stopStreaming
+  apply triple_getDev_bind
+  intro d
+  refine triple_ite (fun _ => triple_pure (fun _ h => h.1)) (fun hflag => ?_)
+  simp only [Bool.not_eq_true, Bool.not_eq_false'] at hflag
+  have hpre : ∀ s, (DV qInv s ∧ s.dev = d) → DV qHeld s := by
+    rintro s ⟨⟨h1, _⟩, rfl⟩
+    exact ⟨hflag, h1⟩
+  refine triple_conseq (P := DV qHeld) ?_ hpre (fun _ _ h => h) (fun _ h => h)
+  have hE : ∀ s, DV qIdle s → DV qInv s := fun _ h => qInv_of_idle h
+  refine triple_bind (R := fun _ => DV qIdle) ?_ (fun _ => ?_)
+  · unfold loopStopOp
+    apply triple_getDev_bind
+    intro d1
+    apply triple_subOp
+    · rintro s ⟨⟨h1, h2⟩, rfl⟩ _
+      simp only [DV, qIdle, okSt, loopStopUpd, hh, h1, if_true]
+      exact ⟨trivial, by omega⟩
+    · rintro s ⟨⟨h1, h2⟩, rfl⟩ ho
+      apply hE
+      rw [outcome_stopEnv_u3v hh] at ho
+      have h0 : s.dev.loops = 0 := by
+        by_cases hz : s.dev.loops = 0
+        · exact hz
+        · simp [h1, hz] at ho
+      simp only [DV, qIdle, failSt, loopStopFail, hh, h0]
+      exact ⟨trivial, trivial⟩
+  refine triple_bind (dv_paramsCtxt hE) (fun x => ?_)
+  refine triple_bind (dv_expectNode _ hE) (fun _ => ?_)
+  refine triple_bind (dv_subOp (by simp) (by simp) hE) (fun _ => ?_)
+  refine triple_bind (dv_expectNode _ hE) (fun _ => ?_)
+  refine triple_bind (dv_subOp (by simp) (by simp) hE) (fun _ => ?_)
+  exact triple_conseq (dv_subOp (by simp) (by simp) hE) (fun _ h => h) (fun _ _ h => hE _ h)
+    (fun _ h => h)
+
+theorem u3v_frame {env : Env} {k : Sub} {no : Bool} {onFail : Out → Err} {upd fu : Dev → Dev}
+    (hu : ∀ d, (upd d).loopFlag = d.loopFlag ∧ (upd d).loops = d.loops)
+    (hf : ∀ d, (fu d).loopFlag = d.loopFlag ∧ (fu d).loops = d.loops) :
+    Triple (DV qInv) (subOp env k no onFail upd fu) (fun _ => DV qInv) (DV qInv) :=
+  dv_subOp hu hf (fun _ h => h)
+
+theorem u3v_call (env : Env) (hh : env.handle = .u3v) (op : Op) :
+    Triple (DV qInv) (call env op) (fun _ => DV qInv) (DV qInv) := by
+  cases op with
+  | «open» =>
+    exact triple_handlePair (u3v_frame (by simp) (by simp))
+      (triple_strmOpenOp (fun _ => u3v_frame (by simp) (by simp)))
+  | load =>
+    refine triple_bind (R := fun _ => DV qInv) ?_ (fun x => ?_)
+    · exact triple_bind (u3v_frame (by simp) (by simp)) (fun _ => triple_pure (fun _ h => h))
+    · exact triple_ite (fun _ => triple_modify (fun _ h => h)) (fun _ => triple_throw (fun _ h => h))
+  | start cap => exact u3v_startStreaming env cap
+  | stop => exact u3v_stopStreaming env hh
+  | close =>
+    refine triple_bind (u3v_stopStreaming env hh) (fun _ => ?_)
+    refine triple_bind (triple_handlePair (u3v_frame (by simp) (by simp))
+      (u3v_frame (by simp) (by simp))) (fun _ => ?_)
+    exact triple_modify (fun _ h => h)
+  | param =>
+    refine triple_bind (R := fun _ => DV qInv)
+      (triple_paramsCtxt (fun _ _ h _ => h) (fun _ h _ => h)) (fun _ => ?_)
+    apply triple_getDev_bind
+    intro d
+    refine triple_ite (fun _ => triple_pure (fun _ h => h.1)) (fun _ => ?_)
+    exact triple_conseq (u3v_frame (by simp) (by simp)) (fun _ h => h.1) (fun _ _ h => h) (fun _ h => h)
+  | gate v =>
+    exact triple_bind (R := fun _ => DV qInv)
+      (triple_paramsCtxt (fun _ _ h _ => h) (fun _ h _ => h))
+      (fun _ => u3v_frame (by simp) (by simp))
+
+theorem u3v_stepEv (env : Env) (hh : env.handle = .u3v) (ev : Ev) (s : State) (h : DV qInv s) :
+    DV qInv (stepEv env ev s).2 := by
+  cases ev with
+  | call op => exact triple_snd (u3v_call env hh op) h
+  | loopDies =>
+    obtain ⟨h1, h2⟩ := h
+    simp only [stepEv, loopDies, hh, modifyDev, DV, qInv]
+    split
+    · exact ⟨by simp only; omega, fun hc => by simp only at hc; omega⟩
+    · exact ⟨h1, h2⟩
+
+theorem u3v_runEvs (env : Env) (hh : env.handle = .u3v) (evs : List Ev) (s : State)
+    (h : DV qInv s) : DV qInv (runEvs env evs s) := by
+  induction evs generalizing s with
+  | nil => exact h
+  | cons ev evs ih => exact ih _ (u3v_stepEv env hh ev s h)
+
+/-- without loop deaths the full `LoopInv` is kept (either handle) -/
+theorem loopInv_runEvs (env : Env) (evs : List Ev) (hnd : ∀ ev ∈ evs, ev ≠ Ev.loopDies) (s : State)
+    (h : LoopInv env.stopFailKills s) : LoopInv env.stopFailKills (runEvs env evs s) := by
+  induction evs generalizing s with
+  | nil => exact h
+  | cons ev evs ih =>
+    cases ev with
+    | call op =>
+      exact ih (fun e he => hnd e (List.mem_cons_of_mem _ he)) _ (triple_snd (loopInv_call env op) h)
+    | loopDies => exact absurd rfl (hnd _ (List.mem_cons_self ..))
+
+/-! ### Growth round: which error a call returns (triples whose error postcondition sees the error) -/
+
+def TripleE {α : Type} (P : State → Prop) (m : M α) (Q : α → State → Prop)
+    (E : Err → State → Prop) : Prop :=
+  ∀ s, P s → (∀ a s', m s = (.ok a, s') → Q a s') ∧ (∀ e s', m s = (.err e, s') → E e s')
+
+theorem tripleE_pure {α : Type} {P : State → Prop} {a : α} {Q : α → State → Prop}
+    {E : Err → State → Prop} (h : ∀ s, P s → Q a s) : TripleE P (pure a : M α) Q E := by
+  intro s hs
+  refine ⟨fun a' s' he => ?_, fun e s' he => ?_⟩ <;>
+    simp only [pure_apply, Prod.mk.injEq, Res.ok.injEq, reduceCtorEq, false_and] at he
+  obtain ⟨rfl, rfl⟩ := he
+  exact h s hs
+
+theorem tripleE_throw {α : Type} {P : State → Prop} {e : Err} {Q : α → State → Prop}
+    {E : Err → State → Prop} (h : ∀ s, P s → E e s) : TripleE P (throwErr e : M α) Q E := by
+  intro s hs
+  refine ⟨fun a' s' he => ?_, fun e' s' he => ?_⟩ <;>
+    simp only [throwErr, Prod.mk.injEq, Res.err.injEq, reduceCtorEq, false_and] at he
+  obtain ⟨rfl, rfl⟩ := he
+  exact h s hs
+
+theorem tripleE_panic {α : Type} {P : State → Prop} {Q : α → State → Prop}
+    {E : Err → State → Prop} : TripleE P (panicM : M α) Q E := by
+  intro s _
+  refine ⟨fun a' s' he => ?_, fun e' s' he => ?_⟩ <;>
+    simp only [panicM, Prod.mk.injEq, reduceCtorEq, false_and] at he
+
+theorem tripleE_modify {P : State → Prop} {f : Dev → Dev} {Q : Unit → State → Prop}
+    {E : Err → State → Prop} (h : ∀ s, P s → Q () { s with dev := f s.dev }) :
+    TripleE P (modifyDev f) Q E := by
+  intro s hs
+  refine ⟨fun a' s' he => ?_, fun e s' he => ?_⟩ <;>
+    simp only [modifyDev, Prod.mk.injEq, reduceCtorEq, false_and, true_and] at he
+  subst he
+  exact h s hs
+
+theorem tripleE_paramsCtxt {P : State → Prop} {Q : Xml → State → Prop} {E : Err → State → Prop}
+    (hs : ∀ s x, P s → s.dev.ctxt = some x → Q x s)
+    (hn : ∀ s, P s → s.dev.ctxt = none → E .ctxtMissing s) : TripleE P paramsCtxt Q E := by
+  intro s hP
+  unfold paramsCtxt
+  cases hc : s.dev.ctxt with
+  | none =>
+    refine ⟨fun a' s' he => ?_, fun e s' he => ?_⟩ <;>
+      simp only [Prod.mk.injEq, Res.err.injEq, reduceCtorEq, false_and] at he
+    obtain ⟨rfl, rfl⟩ := he
+    exact hn s hP hc
+  | some x =>
+    refine ⟨fun a' s' he => ?_, fun e s' he => ?_⟩ <;>
+      simp only [Prod.mk.injEq, Res.ok.injEq, reduceCtorEq, false_and] at he
+    obtain ⟨rfl, rfl⟩ := he
+    exact hs s x hP hc
+
+theorem tripleE_subOp {env : Env} {k : Sub} {no : Bool} {onFail : Out → Err} {upd fu : Dev → Dev}
+    {P : State → Prop} {Q : Unit → State → Prop} {E : Err → State → Prop}
+    (hok : ∀ s, P s → outcome env no s = .ok → Q () (okSt k upd s))
+    (hfail : ∀ s, P s → outcome env no s ≠ .ok →
+      E (onFail (outcome env no s)) (failSt k (outcome env no s) fu s)) :
+    TripleE P (subOp env k no onFail upd fu) Q E := by
+  intro s hP
+  by_cases ho : outcome env no s = .ok
+  · rw [subOp_ok ho]
+    refine ⟨fun a' s' he => ?_, fun e s' he => ?_⟩ <;>
+      simp only [Prod.mk.injEq, reduceCtorEq, false_and, true_and] at he
+    subst he
+    exact hok s hP ho
+  · rw [subOp_fail ho]
+    refine ⟨fun a' s' he => ?_, fun e s' he => ?_⟩ <;>
+      simp only [Prod.mk.injEq, Res.err.injEq, reduceCtorEq, false_and] at he
+    obtain ⟨rfl, rfl⟩ := he
+    exact hfail s hP ho
+
+theorem tripleE_bind {α β : Type} {P : State → Prop} {m : M α} {f : α → M β}
+    {R : α → State → Prop} {Q : β → State → Prop} {E : Err → State → Prop}
+    (h1 : TripleE P m R E) (h2 : ∀ a, TripleE (R a) (f a) Q E) : TripleE P (m >>= f) Q E := by
+  intro s hP
+  obtain ⟨hok, herr⟩ := h1 s hP
+  rcases hm : m s with ⟨r, s1⟩
+  cases r with
+  | ok a =>
+    rw [bind_of_ok hm]
+    exact h2 a s1 (hok a s1 hm)
+  | err e =>
+    rw [bind_of_err hm]
+    refine ⟨fun a' s' he => ?_, fun e' s' he => ?_⟩ <;>
+      simp only [Prod.mk.injEq, Res.err.injEq, reduceCtorEq, false_and] at he
+    obtain ⟨rfl, rfl⟩ := he
+    exact herr e s1 hm
+  | panic =>
+    rw [bind_of_panic hm]
+    refine ⟨fun a' s' he => ?_, fun e' s' he => ?_⟩ <;>
+      simp only [Prod.mk.injEq, reduceCtorEq, false_and] at he
+
+theorem tripleE_getDev_bind {β : Type} {P : State → Prop} {f : Dev → M β}
+    {Q : β → State → Prop} {E : Err → State → Prop}
+    (h : ∀ d, TripleE (fun s => P s ∧ s.dev = d) (f d) Q E) : TripleE P (getDev >>= f) Q E := by
+  intro s hP
+  rw [getDev_bind]
+  exact h s.dev s ⟨hP, rfl⟩
+
+theorem tripleE_ite {α : Type} {c : Prop} [Decidable c] {P : State → Prop} {m1 m2 : M α}
+    {Q : α → State → Prop} {E : Err → State → Prop}
+    (h1 : c → TripleE P m1 Q E) (h2 : ¬c → TripleE P m2 Q E) :
+    TripleE P (if c then m1 else m2) Q E := by
+  split
+  · exact h1 ‹_›
+  · exact h2 ‹_›
+
+theorem tripleE_conseq {α : Type} {P P' : State → Prop} {m : M α} {Q Q' : α → State → Prop}
+    {E : Err → State → Prop} (h : TripleE P m Q E) (hP : ∀ s, P' s → P s)
+    (hQ : ∀ a s, Q a s → Q' a s) : TripleE P' m Q' E := by
+  intro s hs
+  obtain ⟨h1, h2⟩ := h s (hP s hs)
+  exact ⟨fun a s' he => hQ a s' (h1 a s' he), h2⟩
+
+/-- no loop flagged -/
+def NoFlag (s : State) : Prop := s.dev.loopFlag = false
+/-- the error is not the "already streaming" refusal -/
+def NotInStreaming (e : Err) (_ : State) : Prop := e ≠ .inStreaming
+
+theorem nf_subOp {env : Env} {k : Sub} {no : Bool} {onFail : Out → Err} {upd fu : Dev → Dev}
+    (hu : ∀ d, (upd d).loopFlag = d.loopFlag) (he : ∀ o, onFail o ≠ .inStreaming) :
+    TripleE NoFlag (subOp env k no onFail upd fu) (fun _ => NoFlag) NotInStreaming :=
+  tripleE_subOp (fun s hP _ => by simp only [NoFlag, okSt, hu]; exact hP) (fun _ _ _ => he _)
+
+theorem nf_expectNode (b : Bool) :
+    TripleE NoFlag (expectNode b) (fun _ => NoFlag) NotInStreaming := by
+  unfold expectNode
+  exact tripleE_ite (fun _ => tripleE_pure (fun _ h => h))
+    (fun _ => tripleE_throw (fun _ _ => by simp [NotInStreaming]))
+
+/-- `start_streaming` from a state whose flag is clear never returns the InStreaming refusal —
+for the `u3v` handle too, whose own check is therefore never the one that fires -/
+theorem start_not_inStreaming (env : Env) (cap : Nat) :
+    TripleE NoFlag (startStreaming env cap) (fun _ _ => True) NotInStreaming := by
+  unfold startStreaming
+  apply tripleE_getDev_bind
+  intro d
+  refine tripleE_ite (fun hc => ?_) (fun _ => ?_)
+  · intro s hs
+    obtain ⟨h1, rfl⟩ := hs
+    rw [h1] at hc
+    cases hc
+  refine tripleE_ite (fun _ => tripleE_throw (fun _ _ => by simp [NotInStreaming])) (fun _ => ?_)
+  refine tripleE_ite (fun _ => tripleE_panic) (fun _ => ?_)
+  refine tripleE_conseq (P := NoFlag) (Q := fun _ _ => True) ?_ (fun _ h => h.1) (fun _ _ h => h)
+  refine tripleE_bind (nf_subOp (by simp) (by intro o; cases o <;> simp [ctrlErr])) (fun _ => ?_)
+  refine tripleE_bind (R := fun _ => NoFlag)
+    (tripleE_paramsCtxt (fun _ _ h _ => h) (fun _ _ _ => by simp [NotInStreaming])) (fun x => ?_)
+  refine tripleE_bind (nf_expectNode _) (fun _ => ?_)
+  refine tripleE_bind (nf_subOp (by simp) (by simp [nodeErr])) (fun _ => ?_)
+  refine tripleE_bind (nf_expectNode _) (fun _ => ?_)
+  refine tripleE_bind (nf_subOp (by simp) (by simp [nodeErr])) (fun _ => ?_)
+  unfold loopStartOp
+  refine tripleE_bind (nf_subOp (by simp) (by simp)) (fun _ => ?_)
+  apply tripleE_getDev_bind
+  intro d1
+  refine tripleE_ite (fun hc => ?_) (fun _ => tripleE_modify (fun _ _ => trivial))
+  intro s hs
+  obtain ⟨h1, rfl⟩ := hs
+  rw [h1] at hc
+  exact absurd hc.2 (by simp)
 
 end CamVerif.Camera
